@@ -92,7 +92,7 @@ def check_case(case):
                          % (want, got, _brief([e for e in o.errors if e not in hit])))
             elif [e for e in hit if e['pos'] != exp['pos']]:
                 out.fail('%s:wrong-coordinates' % kind, 'repeat starts at pos %s; reported at pos %s' % (exp['pos'], [e['pos'] for e in hit]))
-        elif exp['kind'] == 'required-segment-removed':
+        elif exp['kind'] in ('required-segment-removed', 'required-loop-removed', 'table-first-segment-removed'):
             hit = [e for e in here if e['level'] == 'seg' and e['code'] in codes and e['seg_id'] == exp.get('removed')]
             if not hit:
                 out.fail('%s:no-such-error' % kind, 'removed %s; errors in that set: %s' % (exp.get('removed'), _brief(here)))
